@@ -133,6 +133,14 @@ impl Env {
         Ok(Env { pool, corpus, dir, voices: BTreeMap::new(), next_uid: 0, bundled_bytes: None, labels: BTreeMap::new() })
     }
 
+    /// Cheap environment for simulated threads: shares the corpus, has no question pool
+    /// (such threads never generate voices, they only use engines handed to them).
+    pub fn lite(tag: &str, corpus: &std::sync::Arc<Vec<String>>) -> Result<Env, String> {
+        let dir = scratch_root().join(tag);
+        std::fs::create_dir_all(&dir).map_err(|e| format!("mkdir {:?}: {}", dir, e))?;
+        Ok(Env { pool: QuestionPool { lines: Vec::new() }, corpus: corpus.as_ref().clone(), dir, voices: BTreeMap::new(), next_uid: 0, bundled_bytes: None, labels: BTreeMap::new() })
+    }
+
     pub fn voice_bytes(&mut self, v: &VoiceRef) -> Result<Vec<u8>, String> {
         match v {
             VoiceRef::Bundled => self.bundled().map(|b| b.to_vec()),
@@ -197,7 +205,8 @@ impl Env {
             Ok(Err(e)) => return Err(format!("fault-free voice {} rejected by loader: {}", v.to_text(), e)),
             Err(p) => return Err(format!("fault-free voice {} panicked the loader: {} @{}:{}", v.to_text(), p.msg, p.file, p.line)),
         };
-        let uid = self.next_uid;
+        // stable id (same in every thread and process): hash of the voice reference
+        let uid = (crate::rng::hash_bytes(v.to_text().as_bytes()) & 0x7fff_ffff) as u32;
         self.next_uid += 1;
         // keep the cache bounded
         if self.voices.len() > 400 {
